@@ -547,3 +547,96 @@ Proof.
     + rewrite Ht. reflexivity.
     + rewrite (Hok p) by (left; reflexivity). apply IH. intros x Hx. apply Hok. right. exact Hx.
 Qed.
+
+(* ---------- which verbosity a task is executed with ---------- *)
+(* Stream(None, f) is never forced and holds the default *)
+Lemma mk_stream_none f : mk_stream None f = {| vs_verbosity := 1; vs_force := false |}.
+Proof. reflexivity. Qed.
+
+(* priority: forced global value, then the task's own value, then the global value *)
+Lemma effective_verbosity_spec st tv :
+  (vs_force st = true -> effective_verbosity st tv = vs_verbosity st) /\
+  (vs_force st = false -> forall v, tv = Some v -> effective_verbosity st tv = v) /\
+  (vs_force st = false -> tv = None -> effective_verbosity st tv = vs_verbosity st).
+Proof.
+  unfold effective_verbosity. repeat split.
+  - intros ->. reflexivity.
+  - intros -> v ->. reflexivity.
+  - intros -> ->. reflexivity.
+Qed.
+
+(* the `run` command: command line, then task, then configuration, then 1 *)
+Lemma cmd_stream_priority cli cfg tv :
+  effective_verbosity (cmd_stream cli cfg) tv =
+  match cli with
+  | Some c => c
+  | None => match tv with
+            | Some t => t
+            | None => match cfg with Some g => g | None => 1 end
+            end
+  end.
+Proof. destruct cli, cfg, tv; reflexivity. Qed.
+
+(* the value is always one of those given (or the default): nothing is invented *)
+Lemma cmd_stream_range cli cfg tv (P : Z -> Prop) :
+  P 1 -> (forall v, cli = Some v -> P v) -> (forall v, cfg = Some v -> P v) -> (forall v, tv = Some v -> P v) ->
+  P (effective_verbosity (cmd_stream cli cfg) tv).
+Proof. intros H1 Hc Hg Ht. rewrite cmd_stream_priority. destruct cli, tv, cfg; auto. Qed.
+
+(* overwriting twice changes nothing *)
+Lemma effective_verbosity_idem st tv :
+  effective_verbosity st (Some (effective_verbosity st tv)) = effective_verbosity st tv.
+Proof. unfold effective_verbosity. destruct (vs_force st); reflexivity. Qed.
+
+(* the attribute Task.execute reads is the effective verbosity of the task's own value -- whether
+   the task was visited once or twice (has setup tasks) *)
+Lemma attr_at_execute_spec st hs raw : attr_at_execute st hs raw = Some (effective_verbosity st raw).
+Proof. unfold attr_at_execute, select_visit. destruct hs; reflexivity. Qed.
+
+Lemma exec_verbosity_spec st u : exec_verbosity st u = effective_verbosity st (st_verb (snd u)).
+Proof. unfold exec_verbosity. rewrite attr_at_execute_spec. reflexivity. Qed.
+
+(* ... so a run does not depend on which of its tasks have setup tasks, as long as the execution order is the same *)
+Lemma vrun_ops_flags st us : forall tds,
+  vrun_ops st us tds = vrun_ops st (map (fun u => (false, snd u)) us) tds.
+Proof.
+  induction us as [|u r IH]; intro tds; [reflexivity|].
+  cbn [vrun_ops map]. rewrite !exec_verbosity_spec. cbn [snd].
+  destruct (task_outcome (st_acts (snd u))); try reflexivity. rewrite IH. reflexivity.
+Qed.
+
+Lemma vrun_ops_nested st us : forall tds, nested tds -> nested (vrun_ops st us tds).
+Proof.
+  induction us as [|u r IH]; intros tds Htds; [exact Htds|].
+  cbn [vrun_ops]. apply nested_app; [apply task_ops_nested|].
+  assert (Htds' : nested (task_ops (st_capture (snd u)) (exec_verbosity st u) (st_teardown (snd u)) ++ tds))
+    by (apply nested_app; [apply task_ops_nested|exact Htds]).
+  destruct (task_outcome (st_acts (snd u))); auto.
+Qed.
+
+(* a run of tasks that all use the global verbosity is the run of Model/Action.v [run_ops] *)
+Lemma vrun_ops_uniform st ts : forall tds,
+  vs_force st = true \/ (forall t, In t ts -> st_verb t = None) ->
+  vrun_ops st (map (fun t => (false, t)) ts) tds =
+  run_ops (vs_verbosity st) (map (fun t => {| t_capture := st_capture t; t_acts := st_acts t; t_teardown := st_teardown t |}) ts) tds.
+Proof.
+  induction ts as [|t r IH]; intros tds H; [reflexivity|].
+  cbn [map vrun_ops run_ops t_capture t_acts t_teardown snd].
+  assert (Hv : exec_verbosity st (false, t) = vs_verbosity st).
+  { rewrite exec_verbosity_spec. cbn [snd]. unfold effective_verbosity.
+    destruct H as [-> | H]; [reflexivity|]. rewrite (H t) by (left; reflexivity). destruct (vs_force st); reflexivity. }
+  rewrite Hv. destruct (task_outcome (st_acts t)); try reflexivity.
+  rewrite IH; [reflexivity|]. destruct H as [H|H]; [left; exact H|right]. intros x Hx. apply H. right. exact Hx.
+Qed.
+
+(* one action of a task executed by a runner: captured whatever the verbosity, shown live as the
+   EFFECTIVE verbosity dictates, with or without setup tasks *)
+Lemma capture_effective st hs raw cap ws e :
+  let v := effective_verbosity st raw in
+  let c := py_capture cap (verb_arg (attr_at_execute st hs raw)) ws e in
+  c_out c = (if cap then Some (chunks false ws) else None) /\
+  c_err c = (if cap then Some (chunks true ws) else None) /\
+  c_live_out c = (if cap && ((v =? 0) || (v =? 1)) then [] else chunks false ws) /\
+  c_live_err c = (if cap && (v =? 0) then [] else chunks true ws) /\
+  c_cell_out c = SOrig /\ c_cell_err c = SOrig.
+Proof. cbv zeta. rewrite attr_at_execute_spec. cbn [verb_arg]. apply capture_complete. Qed.
